@@ -655,11 +655,21 @@ def run(rep, tier):
         _c16.round_up_rule(facts, rep, ('internal/stack.h',), min_sites=1)   # the write buffer's capacity is rounded up, never down
         from . import c08 as _c08
         _c08.clause_kind_dispatch(facts, rep)    # each number kind goes to the writer of its own kind (shared with C08)
+        try:
+            _c08.clause_c(facts, rep)            # ... and the integer writer's digit-table subscripts / split points (shared with C08)
+        except AnalysisBroken as ex:
+            rep.broken.append(str(ex))
         c07.clause_format(facts, rep, tier)     # the double writer stays inside the 32 bytes reserved for it and prints the decimal it was given (shared with C07)
         c07.clause_digit_text(facts, rep)   # every character of a number text is a digit (table pairs, '0' + x)
         c07.clause_e(facts, rep)      # every number text has a fraction/exponent; non-finite values (both signs) are refused, not printed
-        narrowing.check(facts, rep, 'E3.lossless-narrowing', ('ftoa.h',), bounds={('FormatSignificand', 'sig'): 10 ** 17}, min_sites=2)
-        narrowing.check(get_facts(facts.config, norm=True), rep, 'E3.lossless-narrowing', ('itoa.h',), min_sites=1)
+        try:
+            narrowing.check(facts, rep, 'E3.lossless-narrowing', ('ftoa.h',), bounds={('FormatSignificand', 'sig'): 10 ** 17}, min_sites=2)
+        except AnalysisBroken as ex:
+            rep.broken.append(str(ex))      # the remaining rules still report
+        try:
+            narrowing.check(get_facts(facts.config, norm=True), rep, 'E3.lossless-narrowing', ('itoa.h',), min_sites=1)
+        except AnalysisBroken as ex:
+            rep.broken.append(str(ex))      # the remaining rules still report
         # 'valid JSON': the string writer may only emit the escapes RFC 8259 defines - the escape tables (shared with C09 / C05)
         from . import c09, c05
         try:
